@@ -347,6 +347,9 @@ func Vars(d gen.DataSpec, p *Probes) jet.VarMap {
 		return reflect.ValueOf("")
 	})
 	vm.Set("nilfn", (func() string)(nil))
+	vm.Set("ifmap", map[interface{}]string{"k": "v"})
+	vm.Set("vsfn", func(xs ...string) int { return len(xs) })
+	vm.Set("nilemb", struct{ *gen.Meta }{})
 	vm.Set("bytesv", []byte("ab"))
 	vm.Set("arrfn", func(a [4]string) int { return len(a) })
 	vm.Set("zstr", "")
